@@ -385,6 +385,10 @@ func (x *X) instr(fr *frame, b *ssa.BasicBlock, in ssa.Instruction, only map[int
 			}
 			v = tv
 		}
+		if x.retHook != nil && len(x.stack) == 1 && x.st.cond != "false" {
+			// postconditions are checked on each return path (path-sensitive heap versions)
+			x.retHook(v)
+		}
 		fr.rets = append(fr.rets, retEdge{st: x.st.clone(), val: v})
 	case *ssa.Panic:
 		if x.mode == modeVC {
